@@ -896,6 +896,16 @@ func (e *Env) evalCall(x *Expr) TV {
 			return TV{Scalar{App("typeis_"+sanitize(name), BoolSort, a.Typ)}, nil}
 		}
 		return TV{Scalar{Eq(a.Typ, IntLit(int64(typeID(t))))}, nil}
+	case "iserrno":
+		// iserrno(err, n): err holds the syscall.Errno value n (same encoding as MakeInterface of an integer)
+		a := arg(0).V.(IfaceV)
+		t, rerr := e.fv.P.ResolveType(e.pkg, "syscall.Errno")
+		if rerr != nil {
+			e.fv.fail("%s: iserrno: %v", x.Pos, rerr)
+		}
+		n := e.promote(arg(1))
+		tid := int64(typeID(t))
+		return TV{Scalar{And(Eq(a.Typ, IntLit(tid)), Eq(a.Ref, ElemRef(Obj(IntLit(-500000-tid)), n)))}, nil}
 	case "same":
 		a, b := arg(0), arg(1)
 		return TV{Scalar{e.fv.valuesEqualSpec(a.V, b.V, a.T)}, nil}
